@@ -1,5 +1,6 @@
 import EmbitModel.Proofs.PsbtReject
 import EmbitModel.Proofs.PsbtBip370
+import EmbitModel.Proofs.PsbtDupUtxo
 import EmbitModel.Props.C04
 /-
   C04X — deepening of C04 (PSBT parse/serialise is lossless): the serialise-then-parse direction, the
@@ -151,6 +152,56 @@ theorem scope_duplicate_key_rejected (ko : KeyOps) (sha : Bytes → Bytes) (g : 
       rw [show p.inputs.length + (j - p.inputs.length) = j by omega, hj] at a1
       obtain rfl := Option.some.inj a1
       exact hdup (OutScope.addPairs_nodup ko kvs _ s hne a3).1
+
+/-- EVERY reader mode `c` (KEEP_ALL and the two memory-saving ones), every scope object `s` the reader may start from
+    (empty for PSBTv2, seeded with the transaction fields for PSBTv0): the pairs of an input scope in which key `00`
+    (PSBT_IN_NON_WITNESS_UTXO) occurs twice are refused — `read_value` raises at the second pair at the latest.
+    (Before `fixes/fix-compress-dup-utxo.diff` the memory-saving modes accepted them, the last one won: audit B3.) -/
+theorem utxo_duplicate_rejected_all_modes (ko : KeyOps) (sha : Bytes → Bytes) (c : Nat) (s : InScope)
+    (a b d : List KV) (v1 v2 : Bytes) :
+    InScope.addPairs ko sha c s (a ++ ([0x00], v1) :: (b ++ ([0x00], v2) :: d)) = none :=
+  InScope.addPairs_dup_utxo_none ko sha c s a b d v1 v2
+
+/-- the same at the level of `PSBT.parse`, version 0, every mode: input scope number `j` (below the number of inputs
+    of the global transaction) carries key `00` twice -/
+theorem utxo_duplicate_parse_rejected_v0 (ko : KeyOps) (sha : Bytes → Bytes) (c : Nat) (g : List KV)
+    (scopes : List (List KV)) (hg : ∀ kv ∈ g, KVWF kv) (hs : ∀ kvs ∈ scopes, ∀ kv ∈ kvs, KVWF kv)
+    (v : Bytes) (t : Tx) (htx : ([0x00], v) ∈ g) (ht : Tx.parse v = some t)
+    (j : Nat) (hj : j < t.vin.length) (a b d : List KV) (v1 v2 : Bytes)
+    (hsc : scopes[j]? = some (a ++ ([0x00], v1) :: (b ++ ([0x00], v2) :: d))) :
+    Psbt.parse ko sha c (framePsbt g scopes) = none := by
+  apply parse_input_scope_none ko sha c g scopes hg hs j _ hsc
+    (fun s => InScope.addPairs_dup_utxo_none ko sha c s a b d v1 v2)
+  intro tx ver unk gs hgf c1 _ hpu
+  obtain ⟨t', e1, e2⟩ := globalFold_tx_of_mem g tx ver unk v hgf htx
+  rw [ht] at e2; obtain rfl := Option.some.inj e2
+  subst e1
+  have hv : (ver == some 2) = false := by simpa using c1
+  rw [hv] at hpu
+  have hnd := globalFold_nodup g none none [] _ ver unk hgf (by simp)
+  have := ((parseUnknowns_spec ko false unk _ gs hnd hpu).2.2.2.2.2.2.1 rfl).2.2.1
+  rw [this]
+  simpa [gstate0] using hj
+
+/-- … and version 2, every mode: input scope number `j` below the input count (key `04`) carries key `00` twice -/
+theorem utxo_duplicate_parse_rejected_v2 (ko : KeyOps) (sha : Bytes → Bytes) (c : Nat) (g : List KV)
+    (scopes : List (List KV)) (hg : ∀ kv ∈ g, KVWF kv) (hs : ∀ kvs ∈ scopes, ∀ kv ∈ kvs, KVWF kv)
+    (w wi : Bytes) (n : Nat) (hver : ([0xfb], w) ∈ g) (h2 : ofLe w = 2)
+    (hi : ([0x04], wi) ∈ g) (hn : parseAll Compact.read wi = some n)
+    (j : Nat) (hj : j < n) (a b d : List KV) (v1 v2 : Bytes)
+    (hsc : scopes[j]? = some (a ++ ([0x00], v1) :: (b ++ ([0x00], v2) :: d))) :
+    Psbt.parse ko sha c (framePsbt g scopes) = none := by
+  apply parse_input_scope_none ko sha c g scopes hg hs j _ hsc
+    (fun s => InScope.addPairs_dup_utxo_none ko sha c s a b d v1 v2)
+  intro tx ver unk gs hgf c1 _ hpu
+  have hpv : ver = some 2 := by
+    rw [(globalFold_ver g _ _ _ _ _ _ hgf).1 _ hver rfl, h2]
+  subst hpv
+  have htx : tx = none := by cases tx <;> simp_all
+  subst htx
+  obtain ⟨c1', _⟩ := parse_v2_counts ko g unk _ gs hgf (by simpa using hpu)
+  rw [c1' wi hi, hn]
+  simpa using hj
 
 /-- what is accepted has exactly as many scopes as inputs plus outputs (KEEP_ALL) -/
 theorem accepted_scope_count (ko : KeyOps) (sha : Bytes → Bytes) (g : List KV) (scopes : List (List KV)) (p : Psbt)
@@ -363,6 +414,26 @@ example : ([0x04], [1]) ∈ exG ∧ parseAll Compact.read [1] = some 1 ∧ ([0x0
 def exUnsigned : Tx :=
   { C03.exLegacy with vin := [{ txid := List.replicate 32 7, vout := 1, scriptSig := [], sequence := 0, witness := [] }] }
 example : Tx.parse (Tx.ser exUnsigned) ≠ none ∧ txFieldKey [0x0e] = true ∧ txFieldKeyOut [0x03] = true := by decide
+
+/-- a previous transaction with two outputs, and the input scope of `exG`'s PSBT carrying it once / twice -/
+def exPrev : Tx := { C03.exLegacy with vout := [{ value := 1, spk := [0x51] }, { value := 5000, spk := [0x6a] }] }
+def exInOnce : List KV := exInKV ++ [([0x00], Tx.ser exPrev)]
+def exInDup : List KV := exInKV ++ ([0x00], Tx.ser exPrev) :: ([] ++ ([0x00], Tx.ser exPrev) :: [])
+
+set_option maxRecDepth 100000 in
+/-- `utxo_duplicate_rejected_all_modes` / `utxo_duplicate_parse_rejected_v2` are not vacuous: the hypotheses hold for
+    `exG`, `[exInDup, exOutKV]` (scope 0 of 1 input), and with the key ONCE the memory-saving modes accept the PSBT and
+    keep only the hash and the spent output (`_txhash`, `_utxo`) — the very state the repaired check looks at -/
+example : (∀ kv ∈ exG, KVWF kv) ∧ (∀ kvs ∈ [exInDup, exOutKV], ∀ kv ∈ kvs, KVWF kv)
+    ∧ ([0xfb], [2, 0, 0, 0]) ∈ exG ∧ ofLe [2, 0, 0, 0] = 2 ∧ ([0x04], [1]) ∈ exG ∧ parseAll Compact.read [1] = some 1
+    ∧ [exInDup, exOutKV][0]? = some exInDup
+    ∧ (Psbt.parse C04.trivialKo id 1 (framePsbt exG [exInOnce, exOutKV])).map
+        (fun p => p.inputs.map fun s => (s.txhash.isSome, s.nonWitnessUtxo.isSome, s.utxoS))
+        = some [(true, false, some { value := 5000, spk := [0x6a] })]
+    ∧ (Psbt.parse C04.trivialKo id 2 (framePsbt exG [exInOnce, exOutKV])).isSome = true := by decide
+example : ∀ c, Psbt.parse C04.trivialKo id c (framePsbt exG [exInDup, exOutKV]) = none := fun c =>
+  utxo_duplicate_parse_rejected_v2 C04.trivialKo id c exG [exInDup, exOutKV] (by decide) (by decide)
+    [2, 0, 0, 0] [1] 1 (by decide) (by decide) (by decide) (by decide) 0 (by decide) exInKV [] [] _ _ rfl
 
 /-- embit does NOT refuse the PSBTv2-only GLOBAL keys (02–05) in a version-0 PSBT: they stay in `unknown`
     (and are written back), as for any unknown key -/
